@@ -262,7 +262,15 @@ impl<'a> JsGen<'a> {
             _ => match self.rng.below(22) {
                 0 => format!("{} * {}", self.atom(), self.atom()),
                 1 => format!("{} - {}", self.expr(d1), self.atom()),
-                2 => format!("fn0({})", self.expr(d1)),
+                2 => {
+                    // a plain call whose name is also a configured method name (`trim(x)` next to `s.trim()`)
+                    if self.rng.chance(1, 3) {
+                        let m = self.method();
+                        format!("{}({})", m, self.expr(d1))
+                    } else {
+                        format!("fn0({})", self.expr(d1))
+                    }
+                }
                 3 => format!("({} ? {} : {})", self.expr(d1), self.expr(d1), self.expr(d1)),
                 4 => format!("typeof {}", self.atom()),
                 5 => format!("!{}", self.atom()),
@@ -871,6 +879,8 @@ pub fn mutate_tokens(rng: &mut Rng, src: &str, n: usize) -> String {
 /// declarations, `this` forms, destructuring defaults, unary zoo, labelled continue, tagged member
 /// templates, comments between operands, inner directives, redeclarations, import.meta, HTML comments...
 pub const ZOO: &[&str] = &[
+    r####"function z45(a, b) { return String.raw`C:\users\admin\xfiles and more text` + tag`\unicode and \u{55 and \xerxes is long enough` + a; }"####,
+    r####"function z46(a, b) { return trim(a) + a.trim() + concat(a, b) + a.concat(b) + substring(1) + b.substring(1) + replace(a)(b) + slice`x`; }"####,
     r####"function z41(a, b) { return 'abc'?.substring(1) + null?.trim() + /x/g?.replace(a, 'y') + (1)?.toString().concat(a) + (void 0)?.trim(); }"####,
     r####"function z42(a, b) { return `t`?.trim() + []?.concat(a) + ({})?.trim?.() + 'lit'?.concat?.(a, b) + true?.toString?.().trim(); }"####,
     r####"function z43(a, b) { return 'lit'.concat(a).trim() + ''.concat(...b) + "x".substring(1) + 'y'.replace('y', a) + 'z'.padEnd(3, a).repeat(2); }"####,
@@ -922,7 +932,7 @@ continued' + b; }"####,
 ];
 
 pub fn gen_zoo(rng: &mut Rng, n: usize) -> String {
-    let mut s = String::from("function fn0(x) { return x; }\nfunction super_ok(x) { return x; }\nfunction with_ok(x) { return x; }\nfunction* inner(a) { return a; }\nfunction tag(s, ...v) { return s.raw.join(''); }\nclass Base { constructor() { this.v = 'base'; } }\nvar x, y = {};\n");
+    let mut s = String::from("function fn0(x) { return x; }\nfunction super_ok(x) { return x; }\nfunction with_ok(x) { return x; }\nfunction* inner(a) { return a; }\nfunction trim(x) { return x; }\nfunction concat(x) { return x; }\nfunction substring(x) { return x; }\nfunction replace(x) { return fn0; }\nfunction slice(x) { return x; }\nfunction tag(s, ...v) { return s.raw.join(''); }\nclass Base { constructor() { this.v = 'base'; } }\nvar x, y = {};\n");
     for _ in 0..n {
         s.push_str(*rng.pick(ZOO));
         s.push('\n');
